@@ -325,6 +325,7 @@ Proof.
   destruct (random_population _ _ _ _ _ _ _) as [[pop srest]|] eqn:Ep; simpl in E1; [|discriminate].
   set (used := (length (map snd ta) - length srest)%nat) in *.
   destruct (numbered G_POP G_POP (firstn used ta)) as [nx|] eqn:En; [|discriminate].
+  destruct (init_attributed (firstn used ta)); [|discriminate].
   inversion E1; subst. clear E1.
   apply numbered_ids in En; [|lia].
   assert (M1 : master_events (firstn used ta) = []).
